@@ -5,6 +5,7 @@ package main
 
 import (
 	"fmt"
+	"go/types"
 	"sort"
 	"strings"
 )
@@ -35,7 +36,7 @@ func (e *engine) generateLemmas(prop string) []*oblig {
 					panic(r)
 				}
 			}()
-			st := &state{cells: nil, heap: map[string]Val{}, ghost: map[string]Val{}, pc: "true"}
+			st := &state{cells: nil, heap: map[string]Val{}, ghost: map[string]Val{}, pc: "true", frozen: map[string]*types.Map{}}
 			ev := &evalCtx{cur: st, old: st, bind: map[string]Val{}}
 			for _, c := range b.byKind("var") {
 				fc.decls = append(fc.decls, fmt.Sprintf("(declare-fun %s () %s)", c.gname, c.gsort))
